@@ -32,12 +32,15 @@ def run_selftests(names, seed, thorough):
     return selftest.run(seed=seed, thorough=thorough, only=names)
 
 
-def _run_shard(pid, tier, seed, shard, nshards, outdir, timeout):
+def _run_shard(pid, tier, seed, shard, nshards, outdir, timeout, env_fn=None):
     out = os.path.join(outdir, "shard%d.json" % shard)
     cmd = [sys.executable, "-m", "pv.shardmain", pid, tier, str(seed), str(shard), str(nshards), out]
     t0 = time.time()
+    env = dict(os.environ)
+    if env_fn is not None:
+        env.update(env_fn(shard))
     try:
-        p = subprocess.run(cmd, timeout=timeout, capture_output=True, text=True)
+        p = subprocess.run(cmd, timeout=timeout, capture_output=True, text=True, env=env)
     except subprocess.TimeoutExpired as e:
         return {"shard": shard, "fatal": "watchdog", "detail": "timeout after %ds" % timeout,
                 "stderr": (e.stderr or b"")[-2000:] if isinstance(e.stderr, (bytes, str)) else ""}
@@ -178,14 +181,25 @@ def main(argv=None):
     outdir = tempfile.mkdtemp(prefix="pv_%s_" % pid)
     try:
         if args.shard is not None:
-            reports = [_run_shard(pid, tier, seed, args.shard, nshards, outdir, timeout)]
+            reports = [_run_shard(pid, tier, seed, args.shard, nshards, outdir, timeout, getattr(mod, "SHARD_ENV", None))]
         else:
             with concurrent.futures.ThreadPoolExecutor(max_workers=max(1, args.jobs)) as ex:
-                futs = [ex.submit(_run_shard, pid, tier, seed, s, nshards, outdir, timeout) for s in range(nshards)]
+                futs = [ex.submit(_run_shard, pid, tier, seed, s, nshards, outdir, timeout, getattr(mod, "SHARD_ENV", None)) for s in range(nshards)]
                 reports = [f.result() for f in futs]
     finally:
         shutil.rmtree(outdir, ignore_errors=True)
 
+    if hasattr(mod, "offline_check") and args.shard is None:
+        # offline checker over the recorded event logs of all shards (histories)
+        off = core.Rec(pid, tier, seed, -1, nshards)
+        try:
+            mod.offline_check(reports, off)
+        except Exception as e:
+            import traceback
+            off.inconclusive.append("offline checker failed: %r %s" % (e, traceback.format_exc()[-600:]))
+        reports = reports + [off.report()]
+    for r in reports:
+        r.pop("blob", None)
     m = merge(reports)
     m["notes"]["model_selftests_passed"] = ran
 
